@@ -302,6 +302,12 @@ def run(rep, tier, seed, selftest):
         "rule": "TLC enumerates every cell of the typing matrix (MC_TypeRules.tla) and evaluates the rule R "
                 "(TypeRules.tla) on it; every cell is rendered as a minimal fully annotated program and compiled by the "
                 "real front end; accept/reject and the E5xx code on the line of the construct are compared with R. "
+                "Second dimension: every KIND of cell is crossed, over a reduced set of type pairs (i32, u8, usize, bool, a "
+                "pointer, an array -- not the full matrix), with every expression context of the offending expression "
+                "(direct, parenthesised, element of an array literal passed to a []T parameter, member of a struct literal "
+                "passed to a struct view, argument of another call, index, operand of a cast / operator, return value, "
+                "condition) and every statement context (top level, block, loop block, then, else, else-if arm, final else "
+                "after else-if, second else-if arm, after a label); the rule ignores the context. "
                 "Non-trivial = distinct cells that are rejected, unconstrained, use an address marker or pair two different types. "
                 "Seeded larger well-typed programs (all primitive types; expressions, assignments, calls, returns), the valid "
                 "corpus and single-edit mutants are compiled; one fact per typed node of the resolved tree and one record per "
